@@ -122,9 +122,16 @@ ItemCond(c, it, rule) ==
 
 \* ---- field name conditions ---------------------------------------------------------------
 \* [t |-> "include", names] | [t |-> "exclude", names] | [t |-> "applied", s] | [t |-> "state", k, v]
+\* include / exclude in regular-expression mode: EACH entry is an expression of its own, matched at the beginning of the
+\* name.  The expressions of the model: [ci, text, end] = an optional flag (?i), a literal text, an optional $ at the end.
+ReMatch(p, name) == LET n == IF p.ci THEN LowerSeq(name) ELSE name
+                        t == IF p.ci THEN LowerSeq(p.text) ELSE p.text
+                    IN  IF p.end THEN n = t ELSE HasPrefix(n, t)
 FieldCond(c, name, applied, rule) ==
     CASE c.t = "include" -> InSeq(name, c.names)
       [] c.t = "exclude" -> ~InSeq(name, c.names)
+      [] c.t = "include_re" -> \E j \in 1..Len(c.pats) : ReMatch(c.pats[j], name)
+      [] c.t = "exclude_re" -> ~\E j \in 1..Len(c.pats) : ReMatch(c.pats[j], name)
       [] c.t = "applied" -> InSeq(c.s, applied)
       [] OTHER -> StateIs(rule, c)
 
